@@ -47,8 +47,27 @@ HDR_NAME_TO_ROLE = {'generation': 'generation', 'version': 'version'}   # header
 _ROLES_FOR = [None]
 
 
-def pointer_role(v):
+def pointer_role(v, effects=None, fb=None):
     """role of a pointer *value* built in ShmWriter::new / ShmReader::new: which part of the mapping it addresses"""
+    if effects is not None and fb is not None and 'mmap' in fmt(v):
+        # a pointer computed by byte arithmetic from the mapping's base: its role is where it lands in the published layout
+        total, known, n_adv = 0, True, 0
+        for x in psi.walk(v):
+            if x[0] == 't' and x[1] == 'call' and x[2][0].startswith('std::ptr::') and x[2][0].endswith(common.PTR_ADVANCE) and \
+                    isinstance(x[2][1], int) and x[2][1] < len(effects):
+                d = common.ptr_advance_bytes(fb, effects[x[2][1]])
+                n_adv += 1
+                if d is None:
+                    known = False
+                else:
+                    total += d
+        proj_field = v[0] == 'ref' and v[1][0][0] == 'S' and v[1][1] and v[1][1][-1][0] == 'f'
+        if n_adv and known and not proj_field:
+            hdr_size = max(common.HDR_ROLE_AT) + 2
+            if total in common.HDR_ROLE_AT and common.HDR_ROLE_AT[total] in HEADER_ROLES:
+                return common.HDR_ROLE_AT[total]
+            if total == hdr_size:
+                return 'ceb'
     if v[0] == 'ref' and v[1][0][0] == 'S' and v[1][1] and v[1][1][-1][0] == 'f' and v[1][1][-1][2] in HDR_NAME_TO_ROLE and \
             'mmap' in fmt(v[1][0][1]):
         return HDR_NAME_TO_ROLE[v[1][1][-1][2]]
@@ -56,12 +75,17 @@ def pointer_role(v):
     if 'mmap' not in s:
         return None
     for x in psi.walk(v):
-        if x[0] == 't' and x[1] == 'call' and x[2][0].endswith(('::add', '::offset', '::byte_add')) and 'mmap' in fmt(x):
+        if x[0] == 't' and x[1] == 'call' and x[2][0].startswith('std::ptr::') and x[2][0].endswith(common.PTR_ADVANCE) and 'mmap' in fmt(x):
             return 'ceb'
     for h, role in HDR_NAME_TO_ROLE.items():
         if s.endswith('.%s' % h) or ('.%s)' % h) in s:
             return role
     return 'mapping'
+
+
+def _is_reader_open(x):
+    from . import startup_model
+    return startup_model.is_reader_new(x)
 
 
 def pointer_roles(fb):
@@ -71,6 +95,8 @@ def pointer_roles(fb):
         return ROLES
     _ROLES_FOR[0] = fb
     ROLES.clear()
+    from . import startup_model
+    startup_model.init_reader_open(fb)
     names = common.abi_names(fb)['hdr']
     HDR_NAME_TO_ROLE.clear()
     HDR_NAME_TO_ROLE.update({names['generation']: 'generation', names['version']: 'version'})
@@ -79,8 +105,8 @@ def pointer_roles(fb):
         for b in fb.bodies(common.SHM):
             if not (b.name == 'new' and (b.impl_self or '').endswith(side) and b.defkind != 'Closure'):
                 continue
-            eng = common.mk_engine(fb, inline_depth=8, no_inline=(
-                (lambda x: x.name == 'new' and (x.impl_self or '').endswith('ShmReader')) if side == 'ShmWriter' else None))
+            eng = common.mk_engine(fb, inline_depth=8, loop_unroll=8, no_inline=(
+                _is_reader_open if side == 'ShmWriter' else None))
             for p in eng.run(b):
                 if not (p.kind == 'return' and p.value[0] == 'agg' and p.value[2] == 'Ok' and p.value[3]):
                     continue
@@ -95,7 +121,7 @@ def pointer_roles(fb):
                     if len(names) != len(v[3]):
                         return
                     for nm, fv in zip(names, v[3]):
-                        r = pointer_role(fv)
+                        r = pointer_role(fv, p.effects, fb)
                         if r is not None and fv[0] != 'agg':
                             ROLES.setdefault(nm, r)
                         elif fv[0] == 'agg' and fv[1].startswith(common.SHM):
@@ -104,10 +130,10 @@ def pointer_roles(fb):
     return ROLES
 
 
-def target_field(v):
+def target_field(v, effects=None):
     """the part of the mapping a pointer argument addresses ('generation', 'version', 'ceb', 'mapping'), via the
     struct field it was loaded from (roles table) or, inside the constructors, via its own provenance"""
-    r = pointer_role(v)
+    r = pointer_role(v, effects, _ROLES_FOR[0] if effects is not None else None)
     if r is not None:
         return r
     s = fmt(v)
@@ -140,11 +166,11 @@ def classify_effects(p):
         name = ef['callee']
         ak = atomic_kind(name)
         if ak == 'load':
-            tf = target_field(ef['args'][0])
+            tf = target_field(ef['args'][0], p.effects)
             evs.append(Ev(n, 'gload' if tf == 'generation' else 'vload' if tf == 'version' else 'aload', ef,
                           order=ordering_of(ef['args'][1]), term=T('call', name, n, *ef['args']), field=tf))
         elif ak in ATOMIC_WRITES:
-            tf = target_field(ef['args'][0])
+            tf = target_field(ef['args'][0], p.effects)
             orders = [ordering_of(a) for a in ef['args'] if ordering_of(a)]
             evs.append(Ev(n, 'gstore' if tf == 'generation' else 'vstore' if tf == 'version' else 'astore', ef,
                           order=orders[0] if orders else None, value=ef['args'][1] if len(ef['args']) > 1 else None,
@@ -154,9 +180,9 @@ def classify_effects(p):
         elif is_compiler_fence(name):
             evs.append(Ev(n, 'cfence', ef, order=ordering_of(ef['args'][0])))
         elif name in DATA_WRITES:
-            evs.append(Ev(n, 'dwrite', ef, field=target_field(ef['args'][0])))
+            evs.append(Ev(n, 'dwrite', ef, field=target_field(ef['args'][0], p.effects)))
         elif name in DATA_READS:
-            evs.append(Ev(n, 'dread', ef, field=target_field(ef['args'][0]), term=T('call', name, n, *ef['args'])))
+            evs.append(Ev(n, 'dread', ef, field=target_field(ef['args'][0], p.effects), term=T('call', name, n, *ef['args'])))
         else:
             evs.append(Ev(n, 'other', ef, name=name))
     return evs
